@@ -265,14 +265,23 @@ def run(ck, prog, ctx):
                     parts = set()
                     closure_getters = {x.id for x in prog.production() if x.kind in ("Fn", "AssocFn") and "all_parents" in field_names(pv.of_return(x), "HpoTermInternal") and x.id not in (TI + "::new",)}
                     for a in val:
-                        if a[0] in ("call", "mutcall") and (a[3] if a[0] == "call" else a[2]) == w.id:
+                        hb_id = (a[3] if a[0] == "call" else a[2]) if a[0] in ("call", "mutcall") else None
+                        if hb_id is not None and (hb_id == w.id or hb_id.startswith(w.id + "::{closure")) and hb_id in prog.bodies:
+                            hb = prog.bodies[hb_id]
                             cbi = a[4] if a[0] == "call" else a[3]
-                            ct = w.blocks[cbi].term
+                            ct = hb.blocks[cbi].term
                             nm = ct.callee.res or ct.callee.deff or ""
                             if not (("BitOr" in (ct.callee.def_args or "") and "HpoGroup" in (ct.callee.def_args or "")) or nm.endswith("HpoGroup::insert") or ct.callee.method in ("extend", "add")):
                                 continue
                             for x in ct.args:
-                                og = origins(w, pvn, x)
+                                og = origins(hb, pvn, x)
+                                if hb is not w:
+                                    # inside an adaptor closure (fold / for_each): the element is a closure parameter, bound by the inlining provenance
+                                    for y in pv.of_operand(hb, x):
+                                        if y[0] == "field":
+                                            og.add(y)
+                                        elif y[0] == "call":
+                                            og.add(("call", y[2] if y[2] in prog.bodies else y[1]))
                                 if any(o[0] == "call" and o[1] == TI + "::parents" for o in og) or ("field", TI, "parents") in og:
                                     parts.add("direct parents")
                                 if any(o[0] == "call" and o[1] in closure_getters for o in og) or ("field", TI, "all_parents") in og:
